@@ -209,12 +209,12 @@ MANIFEST_TEXT = {
         technique="Lean 4 proof (composition of MIC, ECB, layout and key-wrap theorems over an abstract cipher) + differential correspondence through ServeHTTP"),
     "C17": dict(
         text="Lean theorems: C17_frequency_roundtrip (EVERY integer 0 <= f < 2^32 Hz survives float64 division by 10^6, exact print/parse, multiplication by 10^6 and math.Round - error analysis over an exact integer model of binary64), "
-             "C17_percentage_roundtrip (0..1000, kernel evaluation), C17_hex_roundtrip (all byte strings, with/without 0x), C17_envelope_roundtrip (all keys, all 16/24/32-byte KEKs, any lawful block cipher), "
+             "C17_percentage_roundtrip (0..1000, kernel evaluation), C17_hex_roundtrip (all byte strings, with/without 0x), C17_time_roundtrip (every instant of the years 0..9999 in every whole-minute zone: RFC 3339 text parses back to the same second) over C17_calendar (days <-> civil date correct for EVERY day number, leap years included), C17_envelope_roundtrip (all keys, all 16/24/32-byte KEKs, any lawful block cipher), "
              "C17_wrap_is_rfc3394 / C17_unwrap_iff_integrity (the code's key wrap = RFC 3394 as stated in the RFC; success iff the integrity check passes), C17_unwrap_rejects_other_lengths, C17_clear_without_label. "
              "Differential runs tie the model (floats bit-exact, RFC 3339 text, envelopes) to the Go code; every Go result is judged against the property.",
-        note="PARTIAL: the ISO8601Time round trip and the JSON composition of the 23 payload structs are checked by differential / implementation-only runs and run-time verdicts, not by theorems. "
+        note="PARTIAL: the JSON composition of the 23 payload structs is checked by implementation-only runs and run-time verdicts, not by a theorem. "
              "Two genuine defects repaired (decoder truncation; Unwrap panics / silent truncation for AESKey lengths other than 24). Zone offsets with seconds cannot be expressed in RFC 3339 and are outside the quantifier.",
-        technique="Lean 4 proof (exact binary64 error analysis, kernel evaluation, induction over the RFC 3394 rounds) + differential correspondence"),
+        technique="Lean 4 proof (exact binary64 error analysis, kernel evaluation, calendar arithmetic by case split + omega, induction over the RFC 3394 rounds) + differential correspondence"),
     "C18": dict(
         text="Lean theorems over the model of all four packages (33 payload types): C18_payload_roundtrip (every in-width value encodes without error to exactly Size() bytes and decodes to itself, also with trailing bytes), "
              "C18_command_roundtrip (registry lookup included), C18_sequence_roundtrip (any sequence, any length, clocksync / multicastsetup / fragmentation), C18_sequence_roundtrip_partial + C18_sequence_exact_length_counterexample (firmwaremanagement), "
